@@ -533,20 +533,25 @@ StepCopy(ev) ==
 Crash(ev) == {V(ev, SetOfSeq(ev.props), "call did not return: " \o ev.why)}
 
 \* C20: with a handler installed no byte may reach fd 1 / fd 2
-Quiet(ev) == IF "hon" \in DOMAIN ev /\ ev.hon = 1 /\ (ev.out # 0 \/ ev.err # 0)
-             THEN {V(ev, {"C20"}, "bytes written to stdout/stderr with a log handler installed: out=" \o ToString(ev.out) \o " err=" \o ToString(ev.err))}
-             ELSE {}
+Quiet(ev) == (IF "hon" \in DOMAIN ev /\ ev.hon = 1 /\ (ev.out # 0 \/ ev.err # 0)
+              THEN {V(ev, {"C20"}, "bytes written to stdout/stderr with a log handler installed: out=" \o ToString(ev.out) \o " err=" \o ToString(ev.err))}
+              ELSE {})
+             \cup (IF "hon" \in DOMAIN ev /\ ev.hon = 1 /\ ev.msgs = 0 /\ ev.call \in {"read_prob", "read_basis", "write_prob"} /\ "ok" \in DOMAIN ev /\ ev.ok = 0
+              THEN {V(ev, {"C20"}, "a failing file call delivered no message to the installed log handler")} ELSE {})
 
 Next ==
   /\ l <= Len(Tr)
   /\ l' = l + 1
-  /\ LET ev == Tr[l] IN
+  /\ LET ev == IF "nullh" \in DOMAIN Tr[l] THEN [n |-> Tr[l].n, call |-> "skipped", nullh |-> 1] ELSE Tr[l] IN
        /\ IF ev.call = "scenario" THEN
              /\ st' = [h \in Handles |-> Dead] /\ slot' = [b \in Slots |-> NoBas] /\ ans' = {} /\ glob' = [handler |-> FALSE, prec |-> 128, files |-> {}]
              /\ viol' = viol
           ELSE IF ev.call = "CRASH" THEN
              /\ st' = [h \in Handles |-> Dead] /\ slot' = [b \in Slots |-> NoBas] /\ UNCHANGED <<ans, glob>>
              /\ viol' = viol \cup Crash(ev)
+          ELSE IF "nullh" \in DOMAIN ev THEN
+             \* the driver did not make this call: its handle does not exist (creation failed earlier)
+             /\ viol' = viol /\ UNCHANGED <<st, slot, ans, glob>>
           ELSE IF ev.call = "copy" THEN
              LET r == StepCopy(ev) IN
              /\ st' = [st EXCEPT ![ev.h2] = r.h2] /\ viol' = viol \cup r.v \cup Quiet(ev) /\ UNCHANGED <<slot, ans, glob>>
@@ -588,9 +593,23 @@ Next ==
              /\ UNCHANGED <<st, slot, ans, glob>>
           ELSE IF ev.call = "eq_answer" THEN
              LET r1 == st[ev.h].lastres  r2 == st[ev.h2].lastres
-                 bad == ~IsNone(r1) /\ ~IsNone(r2) /\ (r1.status # r2.status \/ (r1.val # "?" /\ r2.val # "?" /\ r1.val # (IF "neg" \in DOMAIN ev /\ ev.neg = 1 THEN RNeg(r2.val) ELSE r2.val))) IN
+                 \* law between the two optimal values: val(h) = sign * val(h2) + off   (C15 transformations; default: equal)
+                 v2 == IF r2.val = "?" THEN "?" ELSE RAdd(IF "neg" \in DOMAIN ev /\ ev.neg = 1 THEN RNeg(r2.val) ELSE r2.val, IF "off" \in DOMAIN ev THEN ev.off ELSE "0")
+                 bad == ~IsNone(r1) /\ ~IsNone(r2) /\ (r1.status # r2.status \/ (r1.status = 1 /\ r1.val # "?" /\ v2 # "?" /\ r1.val # v2)) IN
              /\ viol' = viol \cup (IF bad THEN {V(ev, SetOfSeq(ev.props), "answers differ: " \o ev.h \o " (" \o r1.call \o ": status " \o ToString(r1.status) \o ", value " \o r1.val \o ") vs "
                                                                             \o ev.h2 \o " (" \o r2.call \o ": status " \o ToString(r2.status) \o ", value " \o r2.val \o ")")} ELSE {})
+             /\ UNCHANGED <<st, slot, ans, glob>>
+          ELSE IF ev.call = "expect_lp" THEN
+             \* the problem a generated file denotes (Gen_LPFile / Gen_MPSFile): what the reader delivered must be exactly that
+             LET s2 == st[ev.h]
+                 d == IF s2.live /\ s2.sync THEN RoundTripDefects(ev.lp, s2.lp, ev.fmt = "MPS") ELSE {"the file was not read (reader failed on a valid file)"} IN
+             /\ viol' = viol \cup (IF d = {} THEN {} ELSE {V(ev, SetOfSeq(ev.props), "problem read from the " \o ev.fmt \o " file differs from the problem the text denotes: " \o ToString(d))})
+             /\ UNCHANGED <<st, slot, ans, glob>>
+          ELSE IF ev.call = "determinism" THEN
+             /\ viol' = viol \cup (IF ev.digest1 = ev.digest2 THEN {} ELSE {V(ev, {"C17"}, "two executions of the same scenario in fresh processes differ (first difference at event " \o ToString(ev.first) \o ": " \o ev.what \o ")")})
+             /\ UNCHANGED <<st, slot, ans, glob>>
+          ELSE IF ev.call = "shutdown" THEN
+             /\ viol' = viol \cup (IF ev.leak > 0 THEN {V(ev, {"C18"}, "memory allocated by the library is still unreleased after everything was freed and the library shut down (LeakSanitizer): " \o (IF "sites" \in DOMAIN ev THEN ev.sites ELSE "?"))} ELSE {})
              /\ UNCHANGED <<st, slot, ans, glob>>
           ELSE IF ev.call \in {"mkbasis", "free_basis"} THEN
              /\ slot' = [slot EXCEPT ![ev.b] = IF ev.call = "mkbasis" THEN BasOf(ev.bas) ELSE NoneR]
@@ -642,7 +661,16 @@ Next ==
                              !.witnesses = @ + (IF ev.call = "witness" THEN 1 ELSE 0),
                              !.rejected = @ + (IF "rval" \in DOMAIN ev /\ ev.rval # 0 THEN 1 ELSE 0),
                              !.binv = @ + (IF ev.call = "binv" /\ ev.rv_order = 0 THEN 1 ELSE 0),
-                             !.quiet = @ + (IF "hon" \in DOMAIN ev /\ ev.hon = 1 THEN 1 ELSE 0)]
+                             !.quiet = @ + (IF "hon" \in DOMAIN ev /\ ev.hon = 1 THEN 1 ELSE 0),
+                             !.conv = @ + (IF ev.call = "copy_conv" THEN 1 ELSE 0),
+                             !.basverdicts = @ + (IF ev.call \in {"basis_optimalstatus", "basis_dualstatus", "verify"} THEN 1 ELSE 0),
+                             !.basisrt = @ + (IF ev.call \in {"basis_rt", "basis_file", "rt_check", "expect_lp"} THEN 1 ELSE 0),
+                             !.agree = @ + (IF ev.call = "eq_answer" THEN 1 ELSE 0),
+                             !.solobs = @ + (IF ev.call = "sol" THEN 1 ELSE 0),
+                             !.edits = @ + (IF "rval" \in DOMAIN ev /\ ev.rval = 0 /\ ev.call \in {"new_col", "add_col", "add_cols", "new_row", "add_row", "add_rows", "add_ranged_row", "add_ranged_rows",
+                                                 "delete_row", "delete_rows", "delete_setrows", "delete_named_row", "delete_named_rows", "delete_col", "delete_cols", "delete_setcols",
+                                                 "delete_named_column", "delete_named_columns", "change_coef", "change_objcoef", "change_rhscoef", "change_range", "change_sense",
+                                                 "change_senses", "change_bound", "change_bounds", "change_objsense"} THEN 1 ELSE 0)]
 
 Spec == Init /\ [][Next]_vars
 
